@@ -42,6 +42,7 @@ type PathElem struct {
 	Field   int
 	Index   string
 	IsIndex bool
+	Deref   bool // through a pointer held as (Opt T) inside the cell's value
 }
 
 // PtrV points into a heap cell.
@@ -124,6 +125,7 @@ type State struct {
 	gasCharged [][2]string
 	hookCalls  []HookCall
 	hookFailed bool
+	readOnly   map[int]bool // cells that are detached copies of something the engine cannot address: stores are rejected
 	lghost     map[string]LGhost // loop ghost sequences of the loops entered on this path (spec name -> symbol)
 	hookCount  string // SMT Int: number of bridge-hook notifications sent (symbolic across loops)
 	nextCalled int
@@ -149,7 +151,7 @@ type HookCall struct {
 
 func (s *State) Clone() *State {
 	n := &State{pc: append([]string(nil), s.pc...), cells: make(map[int]Value, len(s.cells)), cellTy: s.cellTy,
-		stores: make(map[int]*Store, len(s.stores)), trace: append([]string(nil), s.trace...), recovering: s.recovering, panicVal: s.panicVal, walks: s.walks, gasCharged: append([][2]string(nil), s.gasCharged...), hookCalls: append([]HookCall(nil), s.hookCalls...), hookFailed: s.hookFailed, hookCount: s.hookCount, lghost: cloneLGhost(s.lghost), nextCalled: s.nextCalled, depositCalls: s.depositCalls, depositErrs: append([]string(nil), s.depositErrs...), calls: append([]CallRec(nil), s.calls...)}
+		stores: make(map[int]*Store, len(s.stores)), trace: append([]string(nil), s.trace...), recovering: s.recovering, panicVal: s.panicVal, walks: s.walks, gasCharged: append([][2]string(nil), s.gasCharged...), hookCalls: append([]HookCall(nil), s.hookCalls...), hookFailed: s.hookFailed, hookCount: s.hookCount, lghost: cloneLGhost(s.lghost), readOnly: cloneIntSet(s.readOnly), nextCalled: s.nextCalled, depositCalls: s.depositCalls, depositErrs: append([]string(nil), s.depositErrs...), calls: append([]CallRec(nil), s.calls...)}
 	for k, v := range s.cells {
 		n.cells[k] = v
 	}
@@ -207,6 +209,17 @@ func cloneLGhost(m map[string]LGhost) map[string]LGhost {
 		return nil
 	}
 	n := make(map[string]LGhost, len(m))
+	for k, v := range m {
+		n[k] = v
+	}
+	return n
+}
+
+func cloneIntSet(m map[int]bool) map[int]bool {
+	if m == nil {
+		return nil
+	}
+	n := make(map[int]bool, len(m))
 	for k, v := range m {
 		n[k] = v
 	}
